@@ -49,7 +49,7 @@ def stepK (fs : FS) (includeDirs : List String) (fuel : Nat) (path : String) (cu
           match fs.readAt incPath with
           | none => .error (.internal "FileNotFoundError")
           | some bs =>
-            match bytesToAscii bs with
+            match bytesToText bs with
             | none => .error (.unsupported "non-ASCII source")
             | some src => do
               let inc ← readLinesAux fs includeDirs fuel incPath (baseOf incPath) src
@@ -200,7 +200,7 @@ theorem lineHead_include (fs : FS) (dirs : List String) (fuel : Nat) (path : Str
     (n : Nat) (raw : List Char) (rel incPath : String) (bs : List Nat) (src : List Char)
     (hinc : IsIncludeLine raw rel) (hform : pathOk rel = true)
     (hlook : lookupPath fs rel cd = some incPath) (hdir : fs.isDirAt incPath = false)
-    (hread : fs.readAt incPath = some bs) (hascii : bytesToAscii bs = some src) :
+    (hread : fs.readAt incPath = some bs) (hascii : bytesToText bs = some src) :
     lineHead fs dirs fuel path cd n raw =
       readLinesAux fs dirs fuel incPath (baseOf incPath) src := by
   obtain ⟨hpre, kw, w, hsplit, hrel⟩ := hinc
